@@ -132,7 +132,7 @@ def directed(rnd, tier):
 
 def leg(ctx, rep, rnd, tier):
     info = ctx["info"]
-    reader = ctx.get("reader_model") or vlib.build_ml("reader")
+    reader = info.get("model_reader") or ctx.get("reader_model") or vlib.build_ml("reader")
     nrand = 1500 if tier == "quick" else 20000
     msgs = []
     for i in range(nrand):
@@ -154,11 +154,13 @@ def leg(ctx, rep, rnd, tier):
         rep.violation("implementation crashed while reading a message through the iterator API: %s: %s" % (line[:300], err[-700:]),
                       {"input": line, "stderr": err})
     rlines, keep = [], []
+    not_accepted = 0
     for (kind, b), h, d in zip(msgs, hexes, impl):
         if d == "!CRASH" or "msgs=" not in d:
             continue
         first = d.split("msgs=", 1)[1].split("|")[0]
         if first == "-" or " body=[" not in first:
+            not_accepted += 1
             continue                                             # not accepted: nothing is read
         sig_hex = first.split(" sig=", 1)[1].split(" ", 1)[0]
         sig_hex = "-" if sig_hex in ("~", "-") else sig_hex
@@ -186,13 +188,33 @@ def leg(ctx, rep, rnd, tier):
             else:
                 rep.violation("values read through the iterator API differ from the encoded values for %s:\n impl  %s\n model %s\n spec  %s" % (h[:200], i[:300], m[:300], (sd or s)[:300]),
                               {"cmd": "load d", "input": h, "impl": i, "model": m, "spec": s, "reader_cmd": l})
+    # get_element_count / get_fixed_array of the model against the generator's own expectation (the harness does not call
+    # these two API functions, so this sub-check ties the MODEL to an independent expectation, not to the implementation)
+    aux, exp = [], []
+    for le in (True, False):
+        e = "<" if le else ">"
+        for c, sz in FIXED.items():
+            for n in (0, 1, 2, 7):
+                raw = b"".join((i * 37 + 1).to_bytes(sz, "little" if le else "big") for i in range(n))
+                pad = b"\0" * (4 if sz == 8 else 0)
+                body = struct.pack(e + "I", len(raw)) + pad + raw
+                o = "le" if le else "be"
+                aux.append("count %s %s %s" % (o, vlib.hexs(("a" + c).encode()), vlib.hexs(body))); exp.append(str(n))
+                aux.append("fixed %s %s %s" % (o, vlib.hexs(("a" + c).encode()), vlib.hexs(body))); exp.append("%d %s" % (n, vlib.hexs(raw)))
+        for n in (0, 1, 3):
+            raw = b"".join(struct.pack(e + "I", 1) + b"x\0" + b"\0" * 2 for _ in range(n))[:-2]       # no padding after the last element
+            aux.append("count %s %s %s" % ("le" if le else "be", vlib.hexs(b"as"), vlib.hexs(struct.pack(e + "I", len(raw)) + raw))); exp.append(str(n))
+    ares, _ = vlib.run_lines(reader, aux)
+    for l, x, a in zip(aux, exp, ares):
+        if x != a:
+            rep.violation("reader model: `%s` gives %s, expected %s" % (l, a, x), {"input": l, "names": "Wire.Reader.element_count / read_fixed_multi"}, found_input=False)
     kinds = {}
     shapes = set()
     for k, h, i in keep:
         kinds[k] = kinds.get(k, 0) + 1
         shapes.add(i)
     return {"reader_messages_compared": len(keep), "reader_distinct_dumps": len(shapes), "reader_kinds": kinds,
-            "reader_disagreements": len(diffs),
+            "reader_disagreements": len(diffs), "reader_generated_not_accepted": not_accepted, "reader_count_fixed_cases": len(aux),
             "reader_samples": [{"cmd": l[:200], "dump": i[:160]} for (k, h, i), l in list(zip(keep, rlines))[::max(1, len(keep) // 6)]][:6],
             "reader_rule": "wiregen.rand_message bodies (all types, both byte orders) + directed shapes: empty/short arrays of every element "
                            "alignment at offsets 0..8, arrays of every fixed-size type (long, nested with empties, as dict values, in structs), "
